@@ -204,7 +204,7 @@ _patch('C03', 'level_note', 'Not decided: class construction, inheritance tables
 _patch('C04', 'level_text', 'CheckHandler likewise (width 3).',
        'CheckHandler likewise (width 3). The run-time half: the six exception op handlers (ops unit); the real Fiber::stack_unwind resumes the innermost handler at its frame, catch offset and slot depth, and a nested interpreter run (native callback) only resumes handlers of frames it pushed itself, otherwise the error travels through the native (D17, a use after free on the pinned tree, found and fixed here); pause_unwind / finish_unwind / handler push and pop keep handler and frame stacks consistent; run_fun / run_method fix that boundary as the frame count before the callee frame.')
 _patch('C04', 'level_note', 'Not decided: PopHandler emission on every exit path, Fiber::stack_unwind/finish_unwind, op_* handler semantics (ops unit pending), native-callback boundary.',
-       'Not decided: PopHandler emission on every exit path (Compiler), Vm::stack_unwind and the execute loop around Fiber::stack_unwind, the A-hist precondition of pause_unwind, the raw-pointer stores of stack_unwind (one stub).')
+       'Not decided: PopHandler emission on every exit path (Compiler), the A-hist precondition of pause_unwind, the raw-pointer stores of stack_unwind (one stub).')
 CHECKS['C04']['technique'] = 'Verus contracts on handler depth (apply_stack_effects), handler jump encoding (encode), the exception op handlers, the real Fiber handler search (stack_unwind, pause_unwind, finish_unwind) and the native-callback hooks; property-level depth obligation kept as a listed finding'
 _patch('C06', 'level_text', 'and max_slots covers every simulated depth. ',
        'and max_slots covers every simulated depth; the glue function peephole_compile is verified against exactly these callee contracts (pipeline unit: every call-site precondition, slice bound and the final length assertion), with compiler-output shape assumed once by name at the composition point; 68 real op handlers are tied to the effect table entry of their opcode (O-06.7). ')
